@@ -296,6 +296,38 @@ def source_rules(rep, stats, samples):
         if first is None or "cond" not in synq.expr_skel(first["guard"]) or "Size::Dynamic" not in synq.paths_in(first["body"]):
             rep.add("C16|classification|optional-fields", "annotate_field does not classify conditional (optional) fields as Dynamic "
                     "before looking at their kind", AN)
+    # (e') scan domain of the delimiter searches: "dynamic iff SOME Size/Count field of the declaration designates it" —
+    # the search closure (the one that tests FieldDesc::Size / FieldDesc::Count) must range over all fields of the
+    # declaration: no position-based narrowing adaptor between `fields()` and the searching call.  Followed into the
+    # local helper fns of Schema::new, and applied to the sibling predicates of ast.rs too.
+    NARROW = {"take_while", "skip_while", "take", "skip", "step_by", "map_while"}
+    scans = 0
+    cands = [(nm, f, AN) for nm, f in fns.items() if nm.startswith("Schema::new::") or nm == "array_size"]
+    cands += [(nm, f, "pdl-compiler/src/ast.rs") for nm, f in afns.items() if nm in ("Decl::payload_size", "Decl::array_size")]
+    for nm, f, where in cands:
+        for mc in synq.method_calls(f):
+            tests = [a for a in mc.get("args", []) if a.get("k") == "Closure"
+                     and {"FieldDesc::Size", "FieldDesc::Count"} & set(synq.paths_in(a))]
+            if not tests:
+                continue
+            chain, r = [], mc.get("recv")
+            while isinstance(r, dict) and r.get("k") == "MethodCall":
+                chain.append(r["method"])
+                r = r.get("recv")
+            if "fields" not in chain:
+                continue
+            scans += 1
+            stats["rules"] += 1
+            bad = [m for m in chain[:chain.index("fields")] if m in NARROW]
+            if bad:
+                rep.add(f"C16|siblings|delimiter-scan-narrowed|{nm.split('::')[-1]}",
+                        f"{nm}: the search for the size/count field that delimits a payload or array runs over "
+                        f"`fields().{'.'.join(reversed(chain[:chain.index('fields')]))}` — narrowed by position ({', '.join(bad)}): a "
+                        f"delimiting field declared on the other side is not seen, so a delimited part is classified Unknown "
+                        f"(Decl::payload_size / Decl::array_size / analyzer::array_size scan the whole declaration)", where)
+    samples.append({"rule": "delimiter-scan-domain", "scans": scans})
+    if scans < 4:
+        rep.undecided.append(f"delimiter scans: only {scans} recognised (4 on the confirmed tree)")
     # (f) padding lookahead over the reversed field list, padded arrays counted at their padded size
     ad = fns.get("Schema::new::annotate_decl")
     if ad is None:
